@@ -6,10 +6,10 @@ THEOREMS = {
     "Dawgs.Props.C11": [P + n for n in (
         # generic, proved once for every schema / table / tree / visitor
         "copy_equal_and_fresh", "generic_terminates", "monitor_accepts_generic", "enter_exit_nested",
-        "consume_next_is_exit", "consume_prunes_exactly_subtree", "done_stops_immediately", "error_stops_immediately",
+        "consume_next_is_exit", "consume_prunes_exactly_subtree", "tree_monitor_accepts_generic", "consume_schedule_complete", "done_stops_immediately", "error_stops_immediately",
         "nil_branch_is_error", "plain_walk", "structural_visits_all", "semantic_subset_structural",
         # instance side conditions on the regenerated tables (decide +kernel)
-        "extractor_recognised_everything", "semanticSubset_inst", "branchesComplete_inst", "copyTotal_inst", "helpers_allocate_inst",
+        "extractor_recognised_everything", "generic_shape_inst", "semanticSubset_inst", "branchesComplete_inst", "copyTotal_inst", "helpers_allocate_inst",
         "schemaCopyOK_inst",
         # current code: the full statement, both halves
         "c11_copy", "c11_walk",
@@ -109,7 +109,7 @@ SPEC = {
     "regen": do_regen,
     "lean_modules": ["Dawgs.Props.C11"],
     "theorems_by_module": THEOREMS,
-    "gate_modules": ["Dawgs.Model.C11", "Dawgs.Spec.C11", "Dawgs.Proofs.C11", "Dawgs.Proofs.C11Data", "Dawgs.Proofs.C11Nodup", "Dawgs.Props.C11",
+    "gate_modules": ["Dawgs.Model.C11", "Dawgs.Spec.C11", "Dawgs.Proofs.C11", "Dawgs.Proofs.C11Data", "Dawgs.Proofs.C11Nodup", "Dawgs.Proofs.C11Tree", "Dawgs.Props.C11",
                      "Dawgs.Generated.C11"],
     "suites": [{"name": "c11", "model_suite": "c11", "monitor_suite": "c11mon", "model_input": model_input,
                 "impl_view": impl_view, "keep_prefix": 1, "thorough_seeds": 2},
@@ -121,7 +121,8 @@ SPEC = {
             "(4 seeds x depths 1-4 per type quick, 40 thorough; optionals set/unset, nil/empty/EMPTY-BUT-ALLOCATED (len 0, cap 1-2, or drained through the model's own Add+Remove)/non-empty slices and maps, 0-4 AddError calls, opaque "
             "any payloads incl. slices/maps; every 4th value 'nilish': nil slice elements / typed-nil pointers in interfaces) + the model parsed from every "
             "Cypher text of the repository corpora (every third one, thorough: every one, a second time with all expression lists drained through their own Remove: op qd); per case the real Copy (DeepEqual + rendering equality, aliased fields by address incl. the backing array of every slice with cap > 0 even when empty, 3-phase mutate-and-recompare where both sides append DIFFERENT elements) and both "
-            "real walkers with the never-acting visitor plus 4 (thorough 16; all (k,act) when <= 24 callbacks) scripted visitors consume/done/error at the k-th callback, "
+            "real walkers with the never-acting visitor plus 4 (thorough 16; all (k,act) when <= 24 callbacks) scripted visitors consume/done/error at the k-th callback, plus CONSUME SCHEDULES per walker: "
+            "Consume in every Exit (*X), every Visit (*V), in Enter+Exit / Enter+Visit+Exit of label-determined node sets (#m.r), and in Enter(X)+Exit(X) of positions k+(k+1) (3 random; all when <= 16, thorough <= 40 callbacks), "
             "k uniform over the walk's length (splitmix64(VERIF_SEED)); the Lean model gets the real value as an S-expression and must predict copy equality, the aliased "
             "fields and every event log; suite c11pg: walk.PgSQL with the same scripts over the PostgreSQL AST the real translator emits for every corpus query, branch tree "
             "decoded from the never-acting walk, model must reproduce every log incl. Visit placement; non-trivial = value has >= 3 nodes and a scripted action changed the traversal or a nil branch was reported; distinct = distinct op lines",
